@@ -88,6 +88,16 @@ def render(case, layout="line", pre_lines=0):
             body = " "
         text = pre + "/* <block%s> */" % attrs + body + "/* </block> */\n"
         return "f.rs", text, (lambda j: pre_lines + j)
+    if layout == "inline2":
+        # content starts on the tag's own line AND ends on the end tag's line
+        lines = [line_text(l, "/* <block name=\"n%d\"> </block> */" % j) for j, l in enumerate(block)]
+        if not lines:
+            text = pre + "/* <block%s> */ /* </block> */\n" % attrs
+        elif len(lines) == 1:
+            text = pre + "/* <block%s> */ %s /* </block> */\n" % (attrs, lines[0])
+        else:
+            text = pre + "/* <block%s> */ %s\n" % (attrs, lines[0]) + "".join(t + "\n" for t in lines[1:-1]) + lines[-1] + " /* </block> */\n"
+        return "f.rs", text, (lambda j: pre_lines + j)
     if layout == "same":
         text = pre + "# <block%s> </block>\n" % attrs
         return "f.py", text, (lambda j: pre_lines + 1)
